@@ -143,3 +143,65 @@ Proof.
         change (Z.of_N 2) with 2. change (Z.of_N 1022) with 1022. change (Z.of_N 52) with 52.
         replace (2 ^ 52 + Z.of_N m) with (Z.of_N m + 4503599627370496) by lia. reflexivity.
 Qed.
+
+(* ---------- the PRNG's f64: rand 0.9 `random::<f64>()` = (next_u64 >> 11) * 2^-53; the model builds the bit
+   pattern by hand (Entropy.f64_of_dyadic53).  That pattern decodes - in Flocq's IEEE-754 - to a finite
+   number whose value is k * 2^-53 exactly. ---------- *)
+Lemma split_bits_build : forall E mant, 0 <= mant < 2 ^ 52 -> 0 <= E < 2 ^ 11 ->
+  split_bits 52 11 (E * 2 ^ 52 + mant) = (false, mant, E).
+Proof.
+  intros E mant Hm HE. unfold split_bits. f_equal; [f_equal|].
+  - apply Zle_bool_false. change (2 ^ 52 * 2 ^ 11) with (2 ^ 63). nia.
+  - rewrite Z.add_comm, Z_mod_plus_full. apply Z.mod_small. exact Hm.
+  - rewrite Z.add_comm, Z_div_plus_full by lia. rewrite (Z.div_small mant) by exact Hm. cbn [Z.add]. apply Z.mod_small. exact HE.
+Qed.
+
+Theorem dyadic53_value : forall k, (k < 2 ^ 53)%N ->
+  is_finite 53 1024 (b64_of_bits (Z.of_N (f64_of_dyadic53 k))) = true
+  /\ B2R 53 1024 (b64_of_bits (Z.of_N (f64_of_dyadic53 k))) = draw_R k.
+Proof.
+  intros k Hk. unfold f64_of_dyadic53. destruct (N.eqb_spec k 0) as [->|Hk0].
+  - split; [reflexivity|]. unfold draw_R. cbn [Z.of_N]. rewrite Rmult_0_l. reflexivity.
+  - set (e := N.log2 k).
+    assert (Hpos : (0 < k)%N) by lia.
+    destruct (N.log2_spec k Hpos) as [L1 L2]. fold e in L1, L2.
+    assert (He : (e <= 52)%N).
+    { destruct (N.le_gt_cases e 52) as [H|H]; [exact H|]. exfalso.
+      assert ((2 ^ 53 <= 2 ^ e)%N) by (apply N.pow_le_mono_r; lia). lia. }
+    rewrite !N.shiftl_mul_pow2.
+    set (sc := (2 ^ (52 - e))%N).
+    assert (Hsc : (2 ^ e * sc = 2 ^ 52)%N) by (unfold sc; rewrite <- N.pow_add_r; f_equal; lia).
+    assert (Hsc2 : (2 ^ N.succ e * sc = 2 ^ 53)%N).
+    { unfold sc. rewrite <- N.pow_add_r. f_equal. lia. }
+    assert (M1 : (2 ^ 52 <= k * sc)%N) by (rewrite <- Hsc; apply N.mul_le_mono_r; exact L1).
+    assert (M2 : (k * sc < 2 ^ 53)%N).
+    { rewrite <- Hsc2. apply N.mul_lt_mono_pos_r; [unfold sc; apply N.neq_0_lt_0; apply N.pow_nonzero; discriminate | exact L2]. }
+    set (mant := (k * sc - 2 ^ 52)%N).
+    set (E := (1023 - 53 + e)%N).
+    assert (HZ : Z.of_N (E * 2 ^ 52 + mant) = Z.of_N E * 2 ^ 52 + Z.of_N mant).
+    { rewrite N2Z.inj_add, N2Z.inj_mul. reflexivity. }
+    rewrite HZ. unfold b64_of_bits, binary_float_of_bits.
+    assert (Hm : 0 <= Z.of_N mant < 2 ^ 52).
+    { unfold mant. rewrite N2Z.inj_sub by exact M1. change (Z.of_N (2 ^ 52)) with (2 ^ 52).
+      assert (Z.of_N (2 ^ 52) <= Z.of_N (k * sc) < Z.of_N (2 ^ 53)) by (split; [apply N2Z.inj_le | apply N2Z.inj_lt]; assumption).
+      change (Z.of_N (2 ^ 52)) with (2 ^ 52) in H. change (Z.of_N (2 ^ 53)) with (2 ^ 53) in H. lia. }
+    assert (HE : 970 <= Z.of_N E <= 1022) by (unfold E; lia).
+    split.
+    + rewrite is_finite_FF2B. unfold binary_float_of_bits_aux. rewrite split_bits_build by lia.
+      destruct (Zeq_bool (Z.of_N E) 0) eqn:Z0; [apply Zeq_bool_eq in Z0; lia|].
+      change (2 ^ 11 - 1) with 2047.
+      destruct (Zeq_bool (Z.of_N E) 2047) eqn:Z1; [apply Zeq_bool_eq in Z1; lia|].
+      destruct (Z.of_N mant + 2 ^ 52) eqn:Epx; try lia. reflexivity.
+    + rewrite B2R_FF2B. unfold binary_float_of_bits_aux. rewrite split_bits_build by lia.
+      destruct (Zeq_bool (Z.of_N E) 0) eqn:Z0; [apply Zeq_bool_eq in Z0; lia|].
+      change (2 ^ 11 - 1) with 2047.
+      destruct (Zeq_bool (Z.of_N E) 2047) eqn:Z1; [apply Zeq_bool_eq in Z1; lia|].
+      destruct (Z.of_N mant + 2 ^ 52) as [|px|px] eqn:Epx; try lia.
+      cbn [FF2R]. unfold F2R. cbn [Fnum Fexp SpecFloat.cond_Zopp]. rewrite <- Epx.
+      change (SpecFloat.emin (52 + 1) (2 ^ (11 - 1))) with (-1074).
+      assert (Hv : Z.of_N mant + 2 ^ 52 = Z.of_N k * 2 ^ (52 - Z.of_N e)).
+      { unfold mant. rewrite N2Z.inj_sub by exact M1. rewrite N2Z.inj_mul. unfold sc. rewrite N2Z.inj_pow, N2Z.inj_sub by exact He.
+        change (Z.of_N (2 ^ 52)) with (2 ^ 52). change (Z.of_N 2) with 2. change (Z.of_N 52) with 52. lia. }
+      rewrite Hv. unfold draw_R. rewrite mult_IZR. rewrite (IZR_Zpower radix2) by lia.
+      rewrite Rmult_assoc, <- bpow_plus. f_equal. f_equal. unfold E. lia.
+Qed.
